@@ -636,12 +636,14 @@ fn long_cases(tier: Tier) -> Vec<LongCase> {
                     for privileged in [true, false] {
                         let inits: &[(u16, u32)] = match tier {
                             // (initial sequence, rounds): 254 sequence numbers per round
-                            Tier::Quick => &[(0, 6), (62500, 14), (64511, 8)],
-                            Tier::Thorough => &[(0, 264), (1, 264), (33434, 130), (64257, 12), (64511, 12)],
+                            // the last three are above the documented limit (64511): rejected today; if a
+                            // cell ever accepts them it has to survive them
+                            Tier::Quick => &[(0, 6), (62500, 14), (64511, 8), (64512, 8), (65000, 8), (65023, 8)],
+                            Tier::Thorough => &[(0, 264), (1, 264), (33434, 130), (64257, 12), (64511, 12), (64512, 12), (64770, 12), (65000, 12), (65023, 12), (65535, 4)],
                         };
                         for &(init, rounds) in inits {
                             for silent in [false, true] {
-                                if silent && init == 0 {
+                                if silent && (init == 0 || init > 64511) {
                                     continue;
                                 }
                                 out.push(LongCase {
